@@ -55,7 +55,9 @@ class Ctx:
             self.tol_dist = 0.1
             self.tol_t = None
         else:
-            self.tol_pos = 1e-9 * (1.0 + self.maxabs) + 1e-9 * unit
+            # rounding grows with the magnitude of the coordinates (64 ulp of the largest one), not the tolerance of the
+            # comparison itself: 1e-9 * maxabs would be a centimetre on a map in projected metres (seeded change Q8)
+            self.tol_pos = 1e-9 * (1.0 + min(self.maxabs, 100.0 * unit)) + 1e-9 * unit + 2.56e-13 * self.maxabs
             self.tol_dist = self.tol_pos
         self.inmem = doc.get("backend", "inmem") in ("inmem", "inmem_api", "pickle")   # lists a node as its own neighbour
         self.fragile = 0
